@@ -209,7 +209,7 @@ fn check_case(subject: &dyn Subject, text: &str, fails: &mut Vec<(String, String
     let mut first_ok: Option<String> = None;
     for &w in &EXTREME_WIDTHS {
         for &t in &EXTREME_TABS {
-            let cfg = Cfg { max_width: w, tab_spaces: t, reorder: false };
+            let cfg = Cfg { max_width: w, tab_spaces: t, reorder: false, blank: 2 };
             *calls += 1;
             match guarded(|| subject.format(text, &cfg)) {
                 Err(m) => {
